@@ -23,18 +23,19 @@ theorem pmat_invariant (tr : Transform) (A : AMat Rat n) (hA : NonNeg A) (i j : 
       r.hops.get i j = 1 + r.hops.get (r.P.get i j) j :=
   (floyd_spec (lenMat tr A) (lenMat_nonneg tr A hA)).next i j hij hfin
 
-/-- **`retrieve_valid`**: for `s ≠ t` with `t` reachable, `retrieve_shortest_path(s, t, hops, Pmat)` applied to the output
-of `distance_wei_floyd` returns `s :: p` where `p` ends at `t`, moves only along existing connections, has exactly
-`hops s t` steps and total length exactly `SPL s t` -/
-theorem retrieve_valid (tr : Transform) (A : AMat Rat n) (hA : NonNeg A) (s t : Fin n) (hst : s ≠ t)
-    (hfin : lenFun (floyd (lenMat tr A)).D s t < ⊤) :
-    ∃ p, retrieve (floyd (lenMat tr A)).hops (floyd (lenMat tr A)).P s t = s :: p ∧
+/-- **`retrieve_valid_len`**: for *any* matrix `L` of exact non-negative lengths (`∞` = no connection; this is the shape
+of every weight → length transform, zero lengths included), `s ≠ t` and `t` reachable: `retrieve_shortest_path(s, t, hops,
+Pmat)` applied to the output of `distance_wei_floyd` returns `s :: p` where `p` ends at `t`, moves only along existing
+connections, has exactly `hops s t` steps and total length exactly `SPL s t` -/
+theorem retrieve_valid_len (L : AMat Ext n) (hL : ∀ i j, 0 ≤ lenFun L i j) (s t : Fin n) (hst : s ≠ t)
+    (hfin : lenFun (floyd L).D s t < ⊤) :
+    ∃ p, retrieve (floyd L).hops (floyd L).P s t = s :: p ∧
       walkEnd s p = t ∧
-      walkLen (lenFun (lenMat tr A)) s p < ⊤ ∧
-      p.length = (floyd (lenMat tr A)).hops.get s t ∧
-      walkLen (lenFun (lenMat tr A)) s p = lenFun (floyd (lenMat tr A)).D s t := by
-  have sp := floyd_spec (lenMat tr A) (lenMat_nonneg tr A hA)
-  set r := floyd (lenMat tr A) with hr
+      walkLen (lenFun L) s p < ⊤ ∧
+      p.length = (floyd L).hops.get s t ∧
+      walkLen (lenFun L) s p = lenFun (floyd L).D s t := by
+  have sp := floyd_spec L hL
+  set r := floyd L with hr
   obtain ⟨h1, h2⟩ := walkP_valid sp (r.hops.get s t) s t hst hfin rfl
   have hne : r.hops.get s t ≠ 0 := by
     have := (sp.next s t hst hfin).2
@@ -43,22 +44,21 @@ theorem retrieve_valid (tr : Transform) (A : AMat Rat n) (hA : NonNeg A) (s t : 
   refine ⟨walkP (fun i j => r.P.get i j) t (r.hops.get s t) s, ?_, h1, ?_, walkP_length _ _ _ _, h2⟩
   · unfold retrieve
     rw [if_neg hne, retrieveGo_eq]
-  · change walkLen (lenFun (lenMat tr A)) s (walkP (toFS r).P t (r.hops.get s t) s) < ⊤
+  · change walkLen (lenFun L) s (walkP (toFS r).P t (r.hops.get s t) s) < ⊤
     rw [h2]; exact hfin
 
-/-- **`retrieve_empty_iff_unreachable`**: for `s ≠ t` the returned sequence is empty exactly when no walk along existing
-connections leads from `s` to `t` -/
-theorem retrieve_empty_iff_unreachable (tr : Transform) (A : AMat Rat n) (hA : NonNeg A) (s t : Fin n) (hst : s ≠ t) :
-    retrieve (floyd (lenMat tr A)).hops (floyd (lenMat tr A)).P s t = [] ↔
-      ¬ ∃ p, walkEnd s p = t ∧ walkLen (lenFun (lenMat tr A)) s p < ⊤ := by
-  have sp := floyd_spec (lenMat tr A) (lenMat_nonneg tr A hA)
+/-- **`retrieve_empty_iff_unreachable_len`**: for `s ≠ t` the returned sequence is empty exactly when no walk along
+existing connections leads from `s` to `t` -/
+theorem retrieve_empty_iff_unreachable_len (L : AMat Ext n) (hL : ∀ i j, 0 ≤ lenFun L i j) (s t : Fin n) (hst : s ≠ t) :
+    retrieve (floyd L).hops (floyd L).P s t = [] ↔ ¬ ∃ p, walkEnd s p = t ∧ walkLen (lenFun L) s p < ⊤ := by
+  have sp := floyd_spec L hL
   rw [← sp.isDist.eq_top_iff s t]
-  set r := floyd (lenMat tr A) with hr
+  set r := floyd L with hr
   constructor
   · intro he
     by_contra hne
     have hfin : (toFS r).D s t < ⊤ := lt_top_iff_ne_top.mpr hne
-    obtain ⟨p, hp, _⟩ := retrieve_valid tr A hA s t hst hfin
+    obtain ⟨p, hp, _⟩ := retrieve_valid_len L hL s t hst hfin
     rw [← hr, he] at hp
     exact absurd hp (by simp)
   · intro hinf
@@ -66,6 +66,31 @@ theorem retrieve_empty_iff_unreachable (tr : Transform) (A : AMat Rat n) (hA : N
     change r.hops.get s t = 0 at this
     unfold retrieve
     rw [if_pos this]
+
+/-- **`retrieve_valid`**: the same for the transforms the model implements (`None`, `'inv'`) on a weight/length matrix
+whose existing connections are positive -/
+theorem retrieve_valid (tr : Transform) (A : AMat Rat n) (hA : NonNeg A) (s t : Fin n) (hst : s ≠ t)
+    (hfin : lenFun (floyd (lenMat tr A)).D s t < ⊤) :
+    ∃ p, retrieve (floyd (lenMat tr A)).hops (floyd (lenMat tr A)).P s t = s :: p ∧
+      walkEnd s p = t ∧
+      walkLen (lenFun (lenMat tr A)) s p < ⊤ ∧
+      p.length = (floyd (lenMat tr A)).hops.get s t ∧
+      walkLen (lenFun (lenMat tr A)) s p = lenFun (floyd (lenMat tr A)).D s t :=
+  retrieve_valid_len _ (lenMat_nonneg tr A hA) s t hst hfin
+
+theorem retrieve_empty_iff_unreachable (tr : Transform) (A : AMat Rat n) (hA : NonNeg A) (s t : Fin n) (hst : s ≠ t) :
+    retrieve (floyd (lenMat tr A)).hops (floyd (lenMat tr A)).P s t = [] ↔
+      ¬ ∃ p, walkEnd s p = t ∧ walkLen (lenFun (lenMat tr A)) s p < ⊤ :=
+  retrieve_empty_iff_unreachable_len _ (lenMat_nonneg tr A hA) s t hst
+
+/-- **`retrieve_self`** — what the code does for `s = t`: `hops[s,s] = 0`, so `retrieve_shortest_path(s, s, …)` is the
+empty sequence for every input, although the target is trivially reachable.  The clauses "starts at the source, ends at
+the target, … empty exactly when the target is unreachable" are therefore stated (and checked) for `s ≠ t` only; for
+`s = t` the property's "empty iff unreachable" reading does not apply to the code, which documents no special case.
+The check evaluates this theorem's statement on the real code for every node (predicate `self-pair-empty`). -/
+theorem retrieve_self (L : AMat Ext n) (s : Fin n) : retrieve (floyd L).hops (floyd L).P s s = [] := by
+  unfold retrieve
+  rw [if_pos (floyd_diag L s).2]
 
 /-! ## navigation_wu -/
 
@@ -111,6 +136,7 @@ theorem navigation_valid (L Dm : AMat Rat n) (mh : Option ℕ) (fuel : ℕ) (o :
 
 /-! ## non-vacuity -/
 
+example : retrieve (floyd (lenMat .none ex3)).hops (floyd (lenMat .none ex3)).P 1 1 = [] := by decide +kernel
 example : retrieve (floyd (lenMat .none ex3)).hops (floyd (lenMat .none ex3)).P 0 2 = [0, 1, 2] ∧
     retrieve (floyd (lenMat .none ex3)).hops (floyd (lenMat .none ex3)).P 2 0 = [] := by decide +kernel
 
